@@ -34,7 +34,7 @@ RefSrc(h) == IF h.manual THEN "[man" \o ToString(h.t) \o "]" ELSE "[" \o Heads[h
 EvSrc(e) == CASE e.a = "call"   -> "x" \o Open(e.k) \o e.l \o "]"
               [] e.a = "inline" -> "y[^inline note " \o e.l \o "]"
               [] OTHER          -> "[Not cited][#" \o e.l \o "]"
-Defs(d) == (IF d.nested THEN "[^a]: note a calls z[^c] inside\n\n" ELSE "[^a]: note a\n\n") \o "[^b]: note b\n\n[^c]: note c\n\n[#a]: cite a\n\n[#b]: cite b\n\n[#c]: cite c\n\n[?a]: gloss a\n\n[?b]: gloss b\n\n[?c]: gloss c\n\n"
+Defs(d) == (IF d.nested THEN "[^a]: note a calls z[^c] inside\n\n" ELSE "[^a]: note a\n\n") \o "[^b]: note b\n\n[^c]: note c\n\n[#a]: cite a\n\n[#b]: cite b\n\n[#c]: cite c\n\n" \o (IF d.nested THEN "[?a]: gloss a calls z[?c] inside\n\n" ELSE "[?a]: gloss a\n\n") \o "[?b]: gloss b\n\n[?c]: gloss c\n\n"
 Wrap(d, s) == CASE d.nest = "list" -> "* " \o s \o "\n\n" [] d.nest = "quote" -> "> " \o s \o "\n\n" [] OTHER -> s \o "\n\n"
 CapSp(d) == d.capsp /\ d.table           \* the caption's label is written after a space
 \* base = 2: the document starts with 'Base Header Level: 2' (ids, numbering and links do not depend on heading levels)
@@ -45,8 +45,9 @@ Src(d) == (IF d.base > 0 THEN "Base Header Level: " \o ToString(d.base) \o "\n\n
           \o Defs(d)
 
 \* a call inside the text of footnote a happens when that entry is printed, i.e. after all calls of the body
-UsesA(d) == \E i \in 1 .. Len(d.ev) : d.ev[i].a = "call" /\ d.ev[i].k = "fn" /\ d.ev[i].l = "a"
-AllEv(d) == d.ev \o (IF d.nested /\ UsesA(d) THEN <<[a |-> "call", k |-> "fn", l |-> "c"]>> ELSE <<>>)
+\* (the footnote list is printed before the glossary list; a term first met inside another term's definition joins the end of the list being printed)
+UsesA(d, k) == \E i \in 1 .. Len(d.ev) : d.ev[i].a = "call" /\ d.ev[i].k = k /\ d.ev[i].l = "a"
+AllEv(d) == d.ev \o (IF d.nested /\ UsesA(d, "fn") THEN <<[a |-> "call", k |-> "fn", l |-> "c"]>> ELSE <<>>) \o (IF d.nested /\ UsesA(d, "gn") THEN <<[a |-> "call", k |-> "gn", l |-> "c"]>> ELSE <<>>)
 D2(d) == [d EXCEPT !.ev = AllEv(d)]
 \* ---- numbering: order of first use, per kind -----------------------------------------------------------------------
 KindOf(e) == IF e.a = "inline" THEN "fn" ELSE IF e.a = "notcited" THEN "cn" ELSE e.k
